@@ -37,8 +37,8 @@ CHECKS["C13"] = dict(
     design="6/C13", technique="Coq proof (closed-set reachability over the finite control skeleton + inductive clocked invariant) + model-derived trace predicate evaluated on virtual-time traces of the real lister")
 
 CHECKS["C04"] = dict(
-    text="Small-step model of server stream x watch session x watcher.run x controller watch case (entries as positions of the server log): the pipeline invariant (applied ++ channel = log up to the last entry taken, session buffer continues it) proved inductive over every action sequence (server changes, deliveries, stream closes, connect errors, non-object frames, reconnects); corollaries: applied is a duplicate-free prefix of the log, a reconnect resumes right after the last entry taken and keeps the output channel, no step discards a received entry, and in every quiescent state the whole log has been applied (no relist needed). Correspondence: the whole controller against a fake API server in synctest virtual time with refresh period 10^6 s, each fault at every position of a base history plus random histories, perturbed schedules; cache at quiescence vs the extracted quiescent outcome (list, then the log in order), subscriber mirror, controller liveness.",
-    note="Model of the code after the fix: commits for D4 and D8. Buffer overflow is outside this model (C10).",
+    text="Small-step model of server stream x watch session x watcher.run x controller watch case (entries as positions of the server log): the pipeline invariant (applied ++ channel = log up to the last entry taken, session buffer continues it) proved inductive over every action sequence (server changes, deliveries, stream closes, connect errors, non-object frames, reconnects); corollaries: applied is a duplicate-free prefix of the log, a reconnect resumes right after the last entry taken and keeps the output channel, no step discards a received entry, and in every quiescent state the whole log has been applied (no relist needed). The model includes the relist's reset (new output channel, curVersion := list version: nothing_stale_after_reset, reset_heals) and the two bounded, non-blocking buffers (an entry is lost only when it finds a buffer full: loss_needs_full_buffer; whatever was lost, what is applied is in log order without duplicates; the exact statements hold while nothing was lost since the last list); busy_burst_closed_form gives the outcome of the deterministic overflow history, which the harness replays on the code. Correspondence: the whole controller against a fake API server in synctest virtual time with refresh period 10^6 s, each fault at every position of a base history plus random histories, perturbed schedules; cache at quiescence vs the extracted quiescent outcome (list, then the log in order), subscriber mirror, controller liveness.",
+    note="Model of the code after the fix: commits for D4 and D8.",
     design="6/C04", technique="Coq proof (inductive invariant over the watch pipeline LTS, quiescence theorem) + quiescent-outcome correspondence under injected watch faults in virtual time")
 
 CHECKS["C03"] = dict(
@@ -51,21 +51,21 @@ CHECKS["C14"] = dict(
     design="6/C14", technique="Coq proof (decision function + step-function invariants over all input sequences) + fault-enumeration correspondence in virtual time")
 
 CHECKS["C05"] = dict(
-    text="Publisher/subscription model (bounded FIFO, atomic enqueue-or-drop-newest, dynamic Subscribe): edge_invariant proved inductive over every sequence of publications, subscriptions and reads; subscriber_sees_exact_suffix (no duplicate, omission, reordering while nothing dropped); leaf_receives_suffix composes it along a path of clones of ANY depth; cache_not_older_after_event on the cache model. Correspondence: Subscribe/Clone trees to depth 3 on a real controller fed by the fake watch in virtual time, subscriptions at barriers and racing, perturbed schedules: every subscriber's sequence vs the reference subscriber (suffix; exact start for barrier-created ones, also via the extracted expected_suffix), no event before Ready, Get after an event.",
-    note="Channel semantics modelled. No drops in the harness runs (<= EventBufsiz/4 in flight).",
+    text="Publisher/subscription model (bounded FIFO, atomic enqueue-or-drop-newest, dynamic Subscribe): edge_invariant proved inductive over every sequence of publications, subscriptions and reads; subscriber_sees_exact_suffix (no duplicate, omission, reordering while nothing dropped); leaf_receives_suffix composes it along a path of clones of ANY depth; cache_not_older_after_event on the cache model; closed subscriptions (close_is_local, publish_to_closed_is_noop, a closed subscriber saw exactly the stretch between its creation and its close). One level down, PubLts.v models publisher.run / distributeEvent / subscription.send / subscription.run one channel operation per step (table visited in any order, consumers and closes interleaved): its invariant (Inv_reachable) gives lts_subscriber_sees_exact_suffix and lts_quiescent_exact, the abstract statement. Correspondence: Subscribe/Clone trees to depth 3 on a real controller fed by the fake watch in virtual time, subscriptions at barriers and racing, perturbed schedules: every subscriber's sequence vs the reference subscriber (suffix; exact start for barrier-created ones, also via the extracted expected_suffix), no event before Ready, Get after an event; publish/subscribe/take/close sequences with bursts beyond the buffer vs the extracted prun (runner command 16); never-reading siblings; relist differences racing with the restarted watch; the tail of the stream at shutdown.",
+    note="Channel semantics modelled.",
     design="6/C05", technique="Coq proof (inductive edge invariant + composition over clone depth) + differential correspondence on real Subscribe/Clone trees in virtual time")
 CHECKS["C10"] = dict(
-    text="On the same pipeline model: drop_is_local (publishing treats each subscription independently of the others' capacity, backlog and reads), push is total (never blocks) and drops the newest when full, stalled_receives_subsequence, never_reading_gets_first_cap (exactly the first EventBufsiz events), healthy siblings keep the exact-suffix guarantee. Correspondence: a tree with healthy, never-reading and slow consumers at every position (direct, below a clone, below a filtered clone, directly-read filtered subscription, monitor with a blocking handler), streams 0..4x EventBufsiz: healthy consumers complete, caches current, stalled consumer gets exactly the first 100, slow ones a subsequence, no hang.",
+    text="On the same pipeline model: drop_is_local (publishing treats each subscription independently of the others' capacity, backlog and reads), push is total (never blocks) and drops the newest when full, stalled_receives_subsequence, never_reading_gets_first_cap (exactly the first EventBufsiz events), healthy siblings keep the exact-suffix guarantee; on the goroutine-level protocol (PubLts.v): step_is_local, lts_receives_subsequence and publisher_never_waits_for_consumers (from every reachable state in which an event is being distributed, steps of the publisher and of the subscriptions' own goroutines alone complete the distribution). Correspondence: what every consumer received vs the extracted prun on seeded publish/subscribe/take/close sequences with bursts up to 130 and partial draining (exact); a tree with healthy, never-reading and slow consumers at every position (direct, below a clone, below a filtered clone, directly-read filtered subscription, monitor with a blocking handler), streams 0..4x EventBufsiz: healthy consumers complete, caches current, stalled consumer gets exactly the first 100, slow ones a subsequence, no hang.",
     note="Typed subscription stalls are exercised in C20. The harness oracles are evaluated on the implementation directly.",
     design="6/C10", technique="Coq proof (locality/totality lemmas, subsequence and first-cap invariants) + stalled-consumer scenarios in virtual time")
 CHECKS["C16"] = dict(
-    text="monitor.run as a sequential program over Ready/Done/Events: for every input sequence the callback log is empty or OnInitialize(content at readiness) followed by exactly one callback per received event in order; OnInitialize once and first; nothing after Done; nothing at all if never ready; every model log passes the checker monitor_log_ok. Correspondence: untyped monitors on a real controller in virtual time, handler durations 0/1ms/50ms, Close at {never, before ready, mid-stream, during a handler, end}: callback log vs published events (type, object, order), overlap detection, Done at each callback; the log is checked by the extracted monitor_log_ok.",
+    text="monitor.run as a sequential program over Ready/Done/Events: for every input sequence the callback log is empty or OnInitialize(content at readiness) followed by exactly one callback per received event in order; OnInitialize once and first; nothing after Done; nothing at all if never ready or if the listing at readiness fails; handlers with any subset of callbacks see the log restricted to the callbacks they have; every model log passes the checker monitor_log_ok. Correspondence: untyped monitors on a real controller in virtual time, handler durations 0/1ms/50ms, Close at {never, before ready, mid-stream, during a handler, end}: callback log vs published events (type, object, order), overlap detection, Done at each callback; the log is checked by the extracted monitor_log_ok.",
     note="Typed monitors are covered with C20. Serial execution is by construction in the model and observed in the implementation.",
     design="6/C16", technique="Coq proof (log-shape theorem over all input sequences) + callback-log correspondence in virtual time")
 
 CHECKS["C06"] = dict(
-    text="filterSubscription.run as a step function (FilterSub.v) over the cache model. Proved: its state invariant under every input sequence (cache actor's filter = most recently set filter, cache empty until readiness); filter_update_commutes (a child in step with its parent stays in step under every well-formed parent event); sync_establishes_in_step (every sync from the parent's current content re-establishes it, from any cache not newer than the parent); nested_conjunction; its own events are a well-formed delta (C02); and the RACING CASE fsub_converges: for every interleaving of consuming parent events with listings of the parent that are any number of events ahead, under any new filter, once the stale events have drained the cache is the most recently set filter applied to the parent's cache (to the parent's final cache when everything is consumed). Correspondence: random trees of all six subscribe/clone forms to depth 3 with Refilter racing with readiness and in-flight events under perturbed schedules; at barriers every ready node's cache vs its filter chain applied to the server content and vs the extracted nested_view, event mirrors between barriers.",
-    note="The racing case is proved per key (FilterRaceProps.fsub_converges) under hist_ok: parent events are well-formed deltas whose entries never get older.",
+    text="filterSubscription.run as a step function (FilterSub.v) over the cache model. Proved: its state invariant under every input sequence (cache actor's filter = most recently set filter, cache empty until readiness); filter_update_commutes (a child in step with its parent stays in step under every well-formed parent event); sync_establishes_in_step (every sync from the parent's current content re-establishes it, from any cache not newer than the parent); nested_conjunction; its own events are a well-formed delta (C02); and the RACING CASE fsub_converges: for every interleaving of consuming parent events with listings of the parent that are any number of events ahead, under any new filter, once the stale events have drained the cache is the most recently set filter applied to the parent's cache (to the parent's final cache when everything is consumed) - fsub_converges_general proves it for EVERY well-formed parent history (each event a well-formed delta of the parent's cache, C02; objects may be deleted and re-created at lower versions). Correspondence: random trees of all six subscribe/clone forms to depth 3 with Refilter racing with readiness and in-flight events under perturbed schedules; at barriers every ready node's cache vs its filter chain applied to the server content and vs the extracted nested_view, event mirrors between barriers.",
+    note="The racing case is proved per key (FilterRaceGen.fsub_converges_general), which is how the cache operations act (child_sync_per_key, child_update_per_key, parent_apply_per_key).",
     design="6/C06", technique="Coq proof (step-function invariant, commutation and nesting theorems) + barrier correspondence under racing Refilter in virtual time")
 CHECKS["C07"] = dict(
     text="refilter_exact (from the f1-view, Refilter(f2) leaves exactly the f2-view), refilter_events_exact / refilter_no_change_no_event (the events are an exact, minimal, well-formed delta), refilter_equal_noop (an equal filter changes and emits nothing) justified by refilter_equal_same_view via C17's soundness, refilter_roundtrip. Correspondence: exhaustive ordered pairs of a 7-member filter family (each rebuilt) + third and repeated Refilters x all parent contents over a small universe, through the public FilterSubscription / FilterController API with barriers; per Refilter the delivered events (multiset) and cache vs the extracted fs_step.",
